@@ -1313,6 +1313,12 @@ class H2Stream:
             return
 
         for n, v in headers:
+            # 204 and 304 responses never have a body, whatever their
+            # content-length field says (RFC 7230 Section 3.3.3).
+            if n == b':status' and v in (b'204', b'304'):
+                self._expected_content_length = 0
+                return
+
             if n == b'content-length':
                 try:
                     self._expected_content_length = int(v, 10)
